@@ -14,7 +14,7 @@ META = {
                    "quotes_by_peer filters on quote.peer_id() == peer; (4) has_expired is `age > QUOTE_EXPIRATION_SECS` with the future-dated "
                    "(Err) arm returning true; historical_verify picks (old,new) by is_newer_than (timestamp >) and returns false on "
                    "new.live_time < old.live_time and on new.received_payment_count < old.received_payment_count; (5) the node-side signer "
-                   "signs exactly the four values it places in the quote, with its own key. Not decided: ed25519 unforgeability.",
+                   "signs exactly the four values it places in the quote, with its own key. Also: no element of peer_quotes gets round the signature check (a `continue` before it is reported); the per-peer reference quote kept by verify_peer_quote is replaced only by a quote that is not older, and an inconsistent quote is flagged and not stored. Not decided: ed25519 unforgeability.",
     "not_decided": ["signature scheme soundness (libp2p identity / ed25519)", "rmp_serde encoding of QuotingMetrics being injective"],
 }
 
